@@ -296,6 +296,12 @@ func (d *Decimal) round() (int64, error) {
 		return ud.n.Int64(), nil
 	}
 
+	// A magnitude with fewer digits than the scale is below one half: it rounds to zero, and
+	// 10^scale (possibly megabytes for a hostile exponent) need not be built.
+	if digits := len(ud.n.Text(10)); int64(digits) < int64(ud.scale) {
+		return 0, nil
+	}
+
 	// Exact arithmetic: a float64 cannot hold a coefficient of more than about 15 digits.
 	pow := new(big.Int).Exp(big.NewInt(10), big.NewInt(int64(ud.scale)), nil)
 	quo, rem := new(big.Int).QuoRem(ud.n, pow, new(big.Int))
